@@ -353,7 +353,8 @@ func gVP9(r *rand.Rand, ro role, n int, _ *gstate) ([]byte, bool) {
 		return p, marker
 	case 1: // I: 15-bit picture id, L: layer indices + TL0PICIDX
 		p := fresh(r, 5, n)
-		p[0], p[1], p[2], p[3], p[4] = flags|0xA0, 0x80|byte(r.Intn(128)), byte(r.Intn(256)), byte(r.Intn(256)), byte(r.Intn(256))
+		// layer byte: TID(3) U(1) SID(3) D(1) with a spatial layer index the parser accepts
+		p[0], p[1], p[2], p[3], p[4] = flags|0xA0, 0x80|byte(r.Intn(128)), byte(r.Intn(256)), byte(r.Intn(8))<<5|byte(r.Intn(2))<<4|byte(r.Intn(3))<<1, byte(r.Intn(256))
 		return p, marker
 	}
 	p := fresh(r, 1, n)
